@@ -33,6 +33,9 @@ def check(run: Run) -> None:
     run.rule("C03.R7", "a `def` token is searched for only when the callable handed in is not a lambda (callable.__name__ != '<lambda>')")
     ctx = TermCtx(m, max_depth=1, opaque={"rewrite_func_as_lambda", "_get_lambda_in_stream", "_realign_indent", "_get_sourcelines"})
     ps = m.find_func("_parse_source_for_lambda", in_module=mod)
+    from ..normalise import unrolled
+
+    ps = unrolled(m, ps)  # the last steps (pick by arguments, def path) may be private helpers the scan returns through
     fa = ctx.analysis(ps)
     srcp = ("param", ps.pos_params[0])
     callerp = ("param", ps.pos_params[1])
@@ -95,6 +98,8 @@ def check(run: Run) -> None:
         fx = Facts(fg, pk)
         none = many = False
         for a, pol in fx.atoms:
+            if isinstance(a, ast.Name) and a.id == good_name and pol:
+                none = True  # `if not good: raise` - the filtered list is non-empty here
             le = len_eq(a)
             if le is None or not (isinstance(le[0], ast.Name) and le[0].id == good_name):
                 continue
@@ -508,6 +513,8 @@ def _check_brackets(run: Run, tt) -> None:
         for a, pol in fx.atoms:
             if pol and isinstance(a, ast.Compare) and _ckey(a.left) is not None and isinstance(a.ops[0], ast.Eq) and isinstance(a.comparators[0], ast.Constant) and a.comparators[0].value == 0:
                 zeros.add(_ckey(a.left))
+            if not pol and not isinstance(a, ast.Compare) and _ckey(a) is not None:
+                zeros.add(_ckey(a))  # `not (parens or brackets or braces)`: an integer counter is falsy exactly when it is 0
         ok_stop = ok_stop and bool(counters) and zeros >= counters
     run.check(ok_stop, "C03.R4", tt, tt.node, "stop condition requires all three counters to be zero", "the stop token is honoured although some bracket kind is still open: a ',' or ')' inside brackets ends the lambda early")
     # comments are dropped: the yield is reached only for non-comment tokens
